@@ -14,6 +14,7 @@ from props import repro_sim
 ID = "C10"
 LEVEL = "exploration"
 TIERS = {"quick": {"runs": 32000, "wall": 150}, "thorough": {"runs": 800000, "wall": 1500}}
+HASHSEED_RUNS = {"quick": 300, "thorough": 3000}    # S7: identical event logs under other hash seeds
 RULE = ("world = seeded document kept as segments, 60% with duplicated field names (parsed with "
         "accept_files_with_duplicated_fields), with or without final newline, free comments "
         "between paragraphs; trace = seeded history (<= 25 steps) of order_first/last/before/"
